@@ -159,3 +159,63 @@ def check_XSEQ(tier):
         else:
             raise ToolError("no written CSV in the trace: the driver is too weak")
     return res.finish()
+
+
+def check_XVSEED(tier):
+    """Choice of the primary-vertex tracks in find_vertices (VertexSeed.tla)."""
+    res = Result("XVSEED", tier, "model_checking")
+    res.rule = ("E1 (MC_VertexSeed): every list of <= 4 tracks over z in 0..3 (thorough 0..5), radii 1..2, both eligibility "
+                "flags (2 (10) million states): sorting by z and cutting where a step is >= D finds exactly the connected "
+                "components of the threshold graph; the implementation-shaped choice (largest cluster of >= 2, then largest "
+                "radius sum, last maximum) is an admissible primary; nothing linkable is left out; none iff no two "
+                "eligible tracks are linked. E2: every 3-track list of the model (every 40th in quick) as flat helices "
+                "(pitch 0: closest approach at z0 exactly; z in 2^-10 m, radii in 2^-6 m) through the real find_vertices "
+                "in shuffled order. E3 (Trace_VertexSeed, D = 35 units = 3.4 cm): the primary track set is admissible, "
+                "primary and remainder partition the input, no secondaries, finite position; seeded lists of 0..12 tracks "
+                "with steps of 33/34/35/36 units around the threshold, equal z, equal cluster sizes and radius sums")
+    res.assumptions = ["flat helices only (for other pitches the z of closest approach is a floating-point result)",
+                       "eligibility flags realised with margins (arc length 10 cm / 1 cm against 3.5 cm; distance of "
+                       "closest approach 0 / 10 cm against 5.3 cm)"]
+    mz = 3 if tier == "quick" else 5
+    cfg = write_cfg("MC_VertexSeed_%s" % tier, constants={"D": 2, "MaxTracks": 4, "MaxZ": mz},
+                    invariants=["ClustersAreComponents", "ImplMeetsRequirement", "PrimaryProps"])
+    res.add_mc(tlc_model_check("MC_VertexSeed", cfg, "mc_vseed_%s" % tier, expect_actions=["Add", "Stop"], workers=8, timeout=3000))
+    cfg = write_cfg("MC_VertexSeed_exp", constants={"D": 2, "MaxTracks": 3, "MaxZ": 4}, invariants=["Export"])
+    r = run_tlc("MC_VertexSeed", cfg, "mc_vseed_exp", workers=8, coverage=False)
+    if r["error"]:
+        raise ToolError("export failed: " + r["error"])
+    beh = os.path.join(BUILD, "traces", "vseed_beh.ndjson")
+    res.extra["model_lists_exported"] = extract_replay_to_file(r, beh)
+    trace = os.path.join(BUILD, "traces", "XVSEED_trace.ndjson")
+    stride, n = (40, 1500) if tier == "quick" else (1, 30000)
+    res.evaluations += run_vh(["vseed", "--in", beh, "--stride", str(stride), "--n", str(n), "--seed", str(seed())], trace, timeout=7200)
+    for k, part in enumerate(split_file(trace, 8000)):
+        validate_dec_trace(res, part, "XVSEED_%d" % k, module="Trace_VertexSeed", descriptor=seq_descriptor)
+    with_primary = 0
+    sizes = set()
+    sample = None
+    with open(trace) as f:
+        for line in f:
+            rec = json.loads(line)
+            if rec.get("primary"):
+                with_primary += 1
+                sizes.add(len(rec["primary"]))
+                if sample is None and len(rec["primary"]) >= 3:
+                    sample = rec
+    res.distinct = len(sizes)
+    res.extra["records_with_primary"] = with_primary
+    res.extra["primary_sizes"] = sorted(sizes)
+    if sample is None:
+        raise ToolError("no primary vertex of three tracks in the trace: the driver is too weak")
+    res.add_sample(sample)
+    # binding self-test: move one primary track to the remainder
+    rec = json.loads(json.dumps(sample))
+    rec["remainder"].append(rec["primary"].pop())
+    p2 = trace + ".selftest"
+    open(p2, "w").write(json.dumps(rec) + "\n")
+    _, mism, _ = tlc_validate("Trace_VertexSeed", p2, "XVSEED_self")
+    okk = any(m[0] == rec["i"] for m in mism)
+    res.extra["binding_selftest"] = {"corrupted_record": rec["i"], "rejected": okk, "how": "moved one primary track to the remainder"}
+    if not okk:
+        raise ToolError("binding self-test failed")
+    return res.finish()
